@@ -33,7 +33,7 @@ struct OptHarness : HarnessBase {
 	OptHarness(const char *n) : name(n) {}
 	const char *prop() const { return "C17"; }
 	O &s(int a) { return *reinterpret_cast<O *>(store[a]); }
-	void reset() { world_reset(); for(int a = 0; a < 2; a++) { memset(store[a], 0, sizeof(O)); new(store[a]) O(); alive[a] = true; ref[a] = M{}; } }
+	void reset() { world_reset(); for(int a = 0; a < 2; a++) { memset(store[a], 0xA5, sizeof(O)); new(store[a]) O; alive[a] = true; ref[a] = M{}; } }
 	enum { C_DEFAULT, C_NULLOPT, C_CREF, C_RVAL, C_CONV, C_COPY, C_MOVE, A_COPY, A_MOVE, A_SELF, A_NULLOPT, A_VALUE, A_CONV_C, A_CONV_M, EMPLACE, MUTATE, NK };
 	void ops(std::vector<uint32_t> &out) {
 		for(uint32_t a = 0; a < 2; a++) {
@@ -113,7 +113,7 @@ struct ExpHarness : HarnessBase {
 	ExpHarness(const char *n) : name(n) {}
 	const char *prop() const { return "C17"; }
 	X &s(int a) { return *reinterpret_cast<X *>(store[a]); }
-	void reset() { world_reset(); for(int a = 0; a < 2; a++) { memset(store[a], 0, sizeof(X)); new(store[a]) X(); alive[a] = true; ref[a] = M{}; } }
+	void reset() { world_reset(); for(int a = 0; a < 2; a++) { memset(store[a], 0xA5, sizeof(X)); new(store[a]) X; alive[a] = true; ref[a] = M{}; } }
 	enum { C_DEFAULT, C_SUCCESS, C_ERR, C_VAL, C_COPY, C_MOVE, A_COPY, A_MOVE, A_ERR, A_VAL, UNWRAP, MAP, MAP_ERR, A_SELF_COPY, A_ALIAS_COPY };
 	void ops(std::vector<uint32_t> &out) {
 		for(uint32_t a = 0; a < 2; a++) {
@@ -195,7 +195,7 @@ struct VarHarness : HarnessBase {
 	struct M { int tag = -1; int v = 0; } ref[2];
 	const char *prop() const { return "C17"; }
 	V &s(int a) { return *reinterpret_cast<V *>(store[a]); }
-	void reset() { world_reset(); for(int a = 0; a < 2; a++) { memset(store[a], 0, sizeof(V)); new(store[a]) V(); alive[a] = true; ref[a] = M{}; } }
+	void reset() { world_reset(); for(int a = 0; a < 2; a++) { memset(store[a], 0xA5, sizeof(V)); new(store[a]) V; alive[a] = true; ref[a] = M{}; } }
 	enum { C_DEFAULT, C_ALT, C_COPY, C_MOVE, A_COPY, A_MOVE, A_SELF, A_ALT, A_EMPTY, EMPLACE, MUTATE };
 	void ops(std::vector<uint32_t> &out) {
 		for(uint32_t a = 0; a < 2; a++) {
